@@ -80,6 +80,20 @@ def install_float_identity(*modules):
         m.float = _sym_float
 
 
+def install_float_round53(*modules):
+    """`float(x)` on a symbolic integer is its float64 image for |x| <= 2**54 (nearest even above 2**53); other values as float()."""
+    from .npmodel import round53
+    from .symnum import is_sym
+
+    def _f(x=0):
+        if is_sym(x):
+            return round53(x) if x.is_int() else x
+        return float(x)
+    for m in modules:
+        _installed.append((m, "float", m.__dict__.get("float", _MISSING)))
+        m.float = _f
+
+
 _MISSING = object()
 
 
